@@ -307,6 +307,68 @@ pub mod env {
         }
     }
 
+    /// Generic twins of queue_for_recv / recv_now / ready_task / join_now for the per-chromosome result channel of
+    /// write_chroms_with_zooms (harness c14_chrom_result_propagates): one boxed message, then the channel is closed.
+    // the message travels as a typed pointer (no pointer<->integer cast: CBMC would lose the object, and with it
+    // the concrete length of the empty zoom vector inside the message); "empty" = pointing at BOXQ_NONE
+    pub static mut BOXQ_NONE: u8 = 0x5A;
+    pub static mut BOXQ: *mut u8 = unsafe { core::ptr::addr_of_mut!(BOXQ_NONE) };
+    pub fn queue_boxed<T>(tx: &mut futures::channel::mpsc::UnboundedSender<T>, msg: T) {
+        #[cfg(not(verif_replay))]
+        unsafe {
+            let _ = tx;
+            kani::assert(BOXQ == core::ptr::addr_of_mut!(BOXQ_NONE), "[env] boxed queue holds one message");
+            BOXQ = Box::into_raw(Box::new(msg)) as *mut u8;
+        }
+        #[cfg(verif_replay)]
+        {
+            let r = tx.unbounded_send(msg);
+            assert!(r.is_ok(), "queue");
+        }
+    }
+    pub fn recv_boxed<T>(rx: &mut futures::channel::mpsc::UnboundedReceiver<T>) -> Option<T> {
+        #[cfg(not(verif_replay))]
+        unsafe {
+            let _ = rx;
+            if BOXQ != core::ptr::addr_of_mut!(BOXQ_NONE) {
+                let p = BOXQ as *mut T;
+                BOXQ = core::ptr::addr_of_mut!(BOXQ_NONE);
+                Some(*Box::from_raw(p))
+            } else {
+                None
+            }
+        }
+        #[cfg(verif_replay)]
+        {
+            use futures::StreamExt;
+            futures::executor::block_on(rx.next())
+        }
+    }
+    pub fn ready_task_t<T: Send + 'static>(env: &Env, out: T) -> JoinHandle<T> {
+        #[cfg(not(verif_replay))]
+        unsafe {
+            let _ = env;
+            let p: *mut T = Box::into_raw(Box::new(out));
+            core::mem::transmute_copy::<*mut T, JoinHandle<T>>(&p)
+        }
+        #[cfg(verif_replay)]
+        {
+            env.rt.spawn(async move { out })
+        }
+    }
+    pub fn join_now_t<T>(h: JoinHandle<T>) -> T {
+        #[cfg(not(verif_replay))]
+        unsafe {
+            let p: *mut T = core::mem::transmute_copy::<JoinHandle<T>, *mut T>(&h);
+            core::mem::forget(h);
+            *Box::from_raw(p)
+        }
+        #[cfg(verif_replay)]
+        {
+            futures::executor::block_on(h).unwrap()
+        }
+    }
+
     /// stub for crossbeam_channel::Sender::send: count only (the receiving side is not part of the harness)
     pub static mut CB_SENT_RAW: usize = 0x5EED_0000_0000_0300;
     pub fn cb_sent() -> usize { unsafe { CB_SENT_RAW - 0x5EED_0000_0000_0300 } }
